@@ -133,15 +133,18 @@ def recognise(F, b, B, bb, kind):
 
 
 def run_r12c(chk, F):
-    rule = "R12c"
-    chk.rule(rule, "every index / slice / positional Vec or String operation in the analysis crate is in bounds by a derived fact "
-                   "(comparison with len, iteration variable, non-empty test, find position) or by an audited entry")
+    return bounds_audit(chk, F, "R12c", "C12", CA, "the analysis crate", "the analysis panics")
+
+
+def bounds_audit(chk, F, rule, prop, crate, what, effect):
+    chk.rule(rule, "every index / slice / positional Vec or String operation in %s is in bounds by a derived fact "
+                   "(comparison with len, iteration variable, non-empty test, find position) or by an audited entry" % what)
     table = panicsurface.load_table()
     n = rec = aud = 0
     per_kind = {}
     for bid in sorted(F.bodies):
         b = F.bodies[bid]
-        if b.crate != CA or "::test" in bid or "/test" in b.file or b.file.endswith("_test.rs") or b.kind in ("const", "static", "promoted"):
+        if b.crate != crate or "::test" in bid or "/test" in b.file or b.file.endswith("_test.rs") or b.kind in ("const", "static", "promoted"):
             continue
         B = None
         ordinal = {}
@@ -150,7 +153,7 @@ def run_r12c(chk, F):
                 continue
             k = (kind, detail.split("::")[-1])
             ordinal[k] = ordinal.get(k, 0) + 1
-            key = "C12|%s|%s:%s#%d" % (bid, kind, detail.split("::")[-1], ordinal[k])
+            key = "%s|%s|%s:%s#%d" % (prop, bid, kind, detail.split("::")[-1], ordinal[k])
             n += 1
             per_kind[kind] = per_kind.get(kind, 0) + 1
             if B is None:
@@ -163,10 +166,10 @@ def run_r12c(chk, F):
                 aud += 1
                 chk.ok(rule, key, {"rule": rule, "site": b.loc(line), "kind": kind, "verdict": "audited", "reason": table[key]})
             else:
-                chk.violation(rule, key, "no bounds fact and no audited entry for this %s site (%s): on some program the index may be out of "
-                                         "range and the analysis panics" % (kind, detail.split("::")[-1]), b.loc(line),
+                chk.violation(rule, key, "no bounds fact and no audited entry for this %s site (%s): on some input the index may be out of "
+                                         "range and %s" % (kind, detail.split("::")[-1], effect), b.loc(line),
                               witness={"kind": kind, "callee": detail})
-    chk.unit("bounds-sensitive sites in the analysis crate", n)
+    chk.unit("bounds-sensitive sites in %s" % what, n)
     chk.unit("sites discharged by a derived bounds fact", rec)
     chk.unit("sites discharged by the audited table", aud)
     chk.note("sites per kind: %s" % sorted(per_kind.items()))
